@@ -5,7 +5,7 @@
    later API calls fail and that LeaveGroup is sent are runtime facts decided by the simulator
    monitor on the live objects at every explored stopping point (partial, see DESIGN.md). *)
 From Coq Require Import List Bool Arith.
-From Verif Require Import Shutdown C19_proof.
+From Verif Require Import Shutdown C19_proof C19_Tasks C19_tasks_proof CloseShapes C19_close_proof.
 Import ListNotations.
 
 (* while closing, the final commit makes exactly one attempt whatever the coordinator answers *)
@@ -30,3 +30,89 @@ Print Assumptions c19_stop_terminates_partial.
 Example c19_path_example :
   stop_time (PathFull (Some 3) (Some [(ARetriable, 2); (AOk, 2)]) (Some 1)) = 6.
 Proof. reflexivity. Qed.
+
+(* ---- the shutdown paths as translated from /repo's source on every run (gen/CloseShapes.v) -------------
+   Task calculus: model/C19_Tasks.v.  [slots] = the background routines with their await points classified by
+   what a cancellation delivered there leads to, [consumer_group_stop] etc. = the sequence of joins that stop()
+   performs, both regenerated from the source text by translator/close2gallina.py. *)
+
+(* the static condition on one join is sufficient: a procedure all of whose steps satisfy it runs to its end
+   from every environment of the state space - no CancelledError or task exception escapes, no join hangs *)
+Theorem c19_safe_joins_complete : forall slots env prog,
+  prog_safe slots prog = true -> env_ok slots env = true -> run slots env prog = Completed.
+Proof. exact safe_completes. Qed.
+Print Assumptions c19_safe_joins_complete.
+
+(* ... and necessary for a cancel-and-join step: when it fails, some task state inside the state space stops
+   the procedure at that step *)
+Theorem c19_unsafe_join_has_failing_state : forall slots t g st,
+  t < length slots -> step_safe slots (CancelAwait t g st) = false ->
+  exists s, state_ok (nth t slots default_slot) s = true /\
+            exec_step slots (env_with (length slots) t [s]) (CancelAwait t g st) <> Continue /\
+            env_ok slots (env_with (length slots) t [s]) = true.
+Proof. exact unsafe_cancel_await_has_witness. Qed.
+Print Assumptions c19_unsafe_join_has_failing_state.
+
+(* the code as it is: every stop() path reaches its last step (the client's connections are closed) whatever
+   each background task is doing - not started, suspended at any of its await points, finished, failed with a
+   broker error - when stop() is called *)
+Theorem c19_consumer_group_stop_completes : forall env,
+  env_ok CloseShapes.slots env = true -> run CloseShapes.slots env CloseShapes.consumer_group_stop = Completed.
+Proof. exact consumer_group_completes. Qed.
+Print Assumptions c19_consumer_group_stop_completes.
+
+Theorem c19_consumer_nogroup_stop_completes : forall env,
+  env_ok CloseShapes.slots env = true -> run CloseShapes.slots env CloseShapes.consumer_nogroup_stop = Completed.
+Proof. exact consumer_nogroup_completes. Qed.
+Print Assumptions c19_consumer_nogroup_stop_completes.
+
+Theorem c19_producer_stop_completes : forall env,
+  env_ok CloseShapes.slots env = true -> run CloseShapes.slots env CloseShapes.producer_stop = Completed.
+Proof. exact producer_completes. Qed.
+Print Assumptions c19_producer_stop_completes.
+
+(* the translated procedures join every background task of their client (the statements above are not about
+   empty programs) and the state space is inhabited by non-trivial environments *)
+Theorem c19_stop_joins_every_task :
+  forallb (fun t => existsb (Nat.eqb t) (joins CloseShapes.consumer_group_stop)) [0; 1; 2; 4; 5; 6; 7] = true /\
+  forallb (fun t => existsb (Nat.eqb t) (joins CloseShapes.consumer_nogroup_stop)) [3; 4; 5; 6; 7] = true /\
+  forallb (fun t => existsb (Nat.eqb t) (joins CloseShapes.producer_stop)) [7; 8] = true.
+Proof. exact (conj consumer_group_joins_all (conj consumer_nogroup_joins_all producer_joins_all)). Qed.
+Print Assumptions c19_stop_joins_every_task.
+
+Example c19_state_space_inhabited :
+  env_ok CloseShapes.slots env_example = true /\ env_ok CloseShapes.slots env_example_failed = true.
+Proof. exact (conj env_example_ok env_example_failed_ok). Qed.
+
+(* full statement: also after an internal error of the client (a routine ended by its "Unexpected error" path) *)
+Definition C19_stop_completes_after_internal_error_full : Prop := forall env,
+  env_ok CloseShapes.slots_crash env = true ->
+  run CloseShapes.slots_crash env CloseShapes.consumer_group_stop = Completed /\
+  run CloseShapes.slots_crash env CloseShapes.consumer_nogroup_stop = Completed.
+
+(* refuted for the code as it is: Fetcher.close() joins the fetch routine without a done() guard and absorbs
+   only the cancellation, so a fetch routine that has crashed makes stop() raise before the client is closed *)
+Theorem c19_stop_after_internal_error_refuted :
+  env_ok CloseShapes.slots_crash env_fetch_crashed = true /\
+  run CloseShapes.slots_crash env_fetch_crashed CloseShapes.consumer_nogroup_stop = Escaped 1 /\
+  run CloseShapes.slots_crash env_fetch_crashed CloseShapes.consumer_group_stop = Escaped 4.
+Proof. exact consumer_crash_refuted. Qed.
+Print Assumptions c19_stop_after_internal_error_refuted.
+
+(* the shapes repaired in /repo (F34; F9 and F39; F41) are unsafe in the calculus *)
+Theorem c19_bare_join_of_unstarted_task_escapes : forall r t g,
+  exec_member r (CancelAwait t g SBare) TUnstarted = Escape.
+Proof. exact bare_join_of_unstarted_escapes. Qed.
+Print Assumptions c19_bare_join_of_unstarted_task_escapes.
+
+Theorem c19_bare_join_at_unprotected_await_escapes : forall r t g i fails,
+  nth_error (r_points r) i = Some PCancelled ->
+  exec_member r (CancelAwait t g SBare) (TParked i fails) = Escape.
+Proof. exact bare_join_at_unprotected_point_escapes. Qed.
+Print Assumptions c19_bare_join_at_unprotected_await_escapes.
+
+Theorem c19_join_of_swallowed_cancellation_hangs : forall r t g st i fails,
+  nth_error (r_points r) i = Some PSwallow ->
+  exec_member r (CancelAwait t g st) (TParked i fails) = Hang.
+Proof. exact join_of_swallowing_point_hangs. Qed.
+Print Assumptions c19_join_of_swallowed_cancellation_hangs.
